@@ -24,7 +24,8 @@ def specAvail (c : Cfg) (outstanding inflight : List Nat) (h : Nat) : Bool :=
 
 /-- failures outstanding after the action labelled `l` -/
 def outstandingAfter (ex : Expiry) (out : List Nat) : Label → List Nat
-  | .fin h .err => if ex == .never then out.modify h (· + 1) else out
+  | .fin h .err => if ex == .never || ex == .delayed then out.modify h (· + 1) else out
+  | .exp h => out.modify h (· - 1)
   | _ => out
 
 def natsToInts (l : List Nat) : List Int := l.map Int.ofNat
